@@ -26,7 +26,9 @@ LongFloatTexts == WideFloatTexts \cup {[neg |-> FALSE, int |-> <<3>>, frac |-> <
                    [neg |-> FALSE, int |-> <<0>>, frac |-> <<1, 2, 3, 4, 5, 6, 7, 8, 9, 0, 1, 2, 3, 4, 5, 6, 7, 8, 9, 0>>, eneg |-> FALSE, exp |-> <<>>],
                    [neg |-> TRUE,  int |-> <<1, 2, 3, 4, 5, 6, 7, 8, 9, 0, 1, 2, 3, 4, 5, 6, 7, 8, 9>>, frac |-> <<5>>, eneg |-> FALSE, exp |-> <<>>],
                    [neg |-> FALSE, int |-> <<0>>, frac |-> <<0, 0, 0, 0, 0, 0, 0, 0, 0, 0, 0, 0, 0, 0, 0, 0, 0, 0, 0, 1, 2, 3, 4>>, eneg |-> FALSE, exp |-> <<>>]}
-Items == CASE Mode = "format" -> Family(Ks) [] Mode = "parse" -> IntTexts [] Mode = "optional" -> OptTexts [] Mode = "longfloat" -> LongFloatTexts \cup {[neg |-> FALSE, int |-> <<1>>, frac |-> <<5>>, eneg |-> FALSE, exp |-> <<>>]}
+\* unsigned texts of exactly 16 digits whose values lie above 2^53 (no double holds them), next to short ones
+WideIntTexts == {<<9, 0, 0, 7, 1, 9, 9, 2, 5, 4, 7, 4, 0, 9, 9, 3>>, <<9, 9, 9, 9, 9, 9, 9, 9, 9, 9, 9, 9, 9, 9, 9, 9>>, <<1, 0, 0, 0, 0, 0, 0, 0, 0, 0, 0, 0, 0, 0, 0, 1>>}
+Items == CASE Mode = "format" -> Family(Ks) [] Mode = "parse" -> IntTexts \cup WideIntTexts [] Mode = "optional" -> OptTexts [] Mode = "longfloat" -> LongFloatTexts \cup {[neg |-> FALSE, int |-> <<1>>, frac |-> <<5>>, eneg |-> FALSE, exp |-> <<>>]}
                [] OTHER -> {ft \in FloatTexts : ~(ft.eneg /\ ft.exp = <<>>) /\ ~(ft.int = <<>> /\ ft.frac = <<>>)}
 
 Init == batch = <<>>
